@@ -27,7 +27,14 @@ def m_v1_rebuild_first_piece_decoy(case):
     return bool(case.get("kf_first_piece_decoy"))
 
 
+def m_v1_rebuild_recursion(case):
+    """KF-C13-3: v1 rebuild of more than about a thousand files lying in ONE piece raises
+    RecursionError (one recursion level per file of a piece)."""
+    return bool(case.get("kf_recursion_many_files")) and case.get("files", 0) >= 900
+
+
 MATCHERS = {
+    "v1_rebuild_recursion_many_files": m_v1_rebuild_recursion,
     "v1_rebuild_first_piece_decoy": m_v1_rebuild_first_piece_decoy,
 }
 
